@@ -5,7 +5,7 @@ dominates the body allocation in both readers, zero-length frame returns before
 allocation, the four width tables agree per FrameMode, big-endian everywhere,
 one-shot framer == streaming writer.
 """
-from ..core import callee_of, callee_names, is_call_to, exclusive_blocks, fold
+from ..core import callee_of, callee_names, is_call_to, exclusive_blocks, fold, receiver_root
 from ..ranges import Ranges, canon, INF
 from ..families import describe
 from ..wire import success_sequences, io_events, fmt_seq, prim_of, widths
@@ -15,6 +15,8 @@ READ_FILES = ('crates/edp_client/src/framing.rs', 'crates/edp_client/src/transpo
 EXACT = ('read_exact', 'read_u8', 'read_u16', 'read_u32', 'read_u64', 'read_i32', 'read_u16_le', 'read_u32_le')
 ARE = 'tokio::io::util::async_read_ext::AsyncReadExt::'
 CAP_LIMIT = 1 << 30
+# adaptors that pull more bytes from the underlying reader than the caller asked for
+BUFFERING = ('BufReader', 'BufStream', 'FramedRead', 'Framed<', 'Lines', 'ReaderStream', 'LinesStream')
 
 
 def read_calls(B):
@@ -25,6 +27,20 @@ def read_calls(B):
                 out.append((bb, t, n.rsplit('::', 1)[1]))
                 break
     return out
+
+
+def reader_identity(ctx, rule, B, bb, t, m, inst):
+    """the read is issued on the caller's reader itself, not on an adaptor created inside the call"""
+    root = receiver_root(B, t['args'][0])[0] if t['args'] else None
+    if root is not None and root[0] == 'arg':
+        ctx.ok(rule, inst, 'reads from the reader it was given (%s)' % describe(B, canon(B, t['args'][0])), ctx.where(B, bb))
+    elif not any(w in (str(root) + ' ' + (t['aty'][0] if t.get('aty') else '')) for w in BUFFERING):
+        ctx.undecided(rule, inst, 'the read is issued on %s, built inside this call; it is not one of the known read-ahead adaptors %s' % (describe(B, canon(B, t['args'][0])), list(BUFFERING)),
+                      ctx.where(B, bb))
+    else:
+        ctx.bad(rule, inst, 'the read is issued on %s, an object built inside this call and dropped at its end: whatever it reads beyond the current frame '
+                '(the next frame, when two arrive in one segment) is lost' % describe(B, canon(B, t['args'][0])), ctx.where(B, bb),
+                key='WHO:%s:%s:local-reader' % (B.path, m))
 
 
 def mode_regions(B):
@@ -45,6 +61,7 @@ def run(ctx):
     P = ctx.P
     # ---- clause 1: only exact-read primitives on the read path ------------------
     ctx.rule('C05.1-exact-reads', 'socket reads in framing.rs / transport.rs / connection.rs use only exact-read primitives (read_exact, read_uN); short-read APIs do not occur', floor=5)
+    ctx.rule('C05.1-reader-identity', 'every socket read is issued on the reader the function was given (a parameter or a field of self), never on a buffering adaptor created per call', floor=4)
     ctx.rule('C05.2-read-result-used', 'the result of every exact read is inspected (?-propagated or matched), never discarded: end-of-stream inside a frame is an error', floor=5)
     n = 0
     for B in P.all('edp_client'):
@@ -61,6 +78,7 @@ def run(ctx):
             else:
                 ctx.bad('C05.1-exact-reads', inst, 'short-read API %s on the framing read path: a frame may be returned partially filled' % m, ctx.where(B, bb),
                         key='WHO:%s:%s' % (B.path, m))
+            reader_identity(ctx, 'C05.1-reader-identity', B, bb, t, m, inst)
             # clause 2: result flows into a Try::branch / a discriminant switch
             d = B.derived_locals([t['dst']['l']])
             used = False
